@@ -76,6 +76,28 @@ FWD_PARAMS = _merge_params(
      ("mk_event", "option ID -> CID -> CSUM -> option SUM -> option DESC -> option RID -> bool -> REMS -> Z -> Z -> AEV"),
      ("self_calendar_id", "CID"), ("self_calendar_summary", "CSUM"), ("self_calendar_timezone", "O:TZ")])
 
+INFER_PARAMS = [("tz_utc", "TZ"), ("dt_fromtimestamp", "Z -> TZ -> DT"), ("dt_time", "DT -> TIME"),
+                ("time_min", "TIME"), ("time_neb", "TIME -> TIME -> bool"),
+                ("td_of_seconds", "Z -> TD"), ("td_of_days", "Z -> TD"), ("td_of_hours", "Z -> TD"),
+                ("td_days", "TD -> Z"), ("td_sub", "TD -> TD -> TD"), ("td_gtb", "TD -> TD -> bool")]
+CONV_PARAMS = [("tz_utc", "TZ"), ("dv_fromtimestamp", "Z -> TZ -> DV"), ("dv_date", "DV -> DV")]
+PREP_TYVARS = ["TZ", "DT", "TIME", "TD", "DV", "IVLX", "EVENT", "ERRS", "PW", "CID", "CSUM"]
+PREP_PARAMS = _merge_params(
+    INFER_PARAMS, CONV_PARAMS,
+    [("validate_event", "IVLX -> option EVENT * option ERRS"), ("errs_first", "ERRS -> PW"),
+     ("pw_assertion_error", "PW"), ("wr_unbounded", "EVENT -> PW"),
+     ("ev_start", "EVENT -> option Z"), ("ev_end", "EVENT -> option Z"), ("ev_is_all_day", "EVENT -> option bool"),
+     ("ev_for_calendar", "EVENT -> CID -> CSUM -> EVENT"),
+     ("mk_prepared", "EVENT -> Z -> Z -> bool -> DV -> DV -> PW")])
+BUILD_TYVARS = ["DV", "TZNAME", "EVENT", "PW", "SUM", "ODESC", "REMS", "GREMS", "GEV", "CID", "CSUM"]
+BUILD_PARAMS = [("pw_event", "PW -> EVENT"), ("pw_start_dt", "PW -> DV"), ("pw_end_dt", "PW -> DV"),
+                ("pw_is_all_day", "PW -> bool"), ("ev_summary", "EVENT -> SUM"), ("ev_description", "EVENT -> ODESC"),
+                ("ev_reminders", "EVENT -> REMS")]
+PW_ATTRS = {("PW", "event"): ("pw_event", "EVENT"), ("PW", "start_dt"): ("pw_start_dt", "DV"),
+            ("PW", "end_dt"): ("pw_end_dt", "DV"), ("PW", "is_all_day"): ("pw_is_all_day", "B"),
+            ("EVENT", "summary"): ("ev_summary", "SUM"), ("EVENT", "description"): ("ev_description", "ODESC"),
+            ("EVENT", "reminders"): ("ev_reminders", "REMS")}
+
 SPECS_GCSA = [
     # ---- _infer_is_all_day
     dict(name="g_gcsa_infer_is_all_day", file=GCSA, func="_infer_is_all_day", kind="expr", ret="B", gx=True,
@@ -205,4 +227,63 @@ SPECS_GCSA = [
          attrs={("EVT", "start"): ("gev_start", "DV"), ("EVT", "end"): ("gev_end", "DV"),
                 ("EVT", "timezone"): ("gev_timezone", "O:TZNAME"), ("EVT", "id"): ("gev_id", "O:ID"),
                 ("EVT", "summary"): ("gev_summary", "O:SUM"), ("EVT", "description"): ("gev_description", "O:DESC")}),
+    # ---- the write path: _convert_timestamps_to_datetime, _prepare_event_for_add, _build_gcsa_event,
+    # _build_result_event (R10)
+    dict(name="g_gcsa_convert_timestamps", file=GCSA, func="_convert_timestamps_to_datetime", kind="expr", ret="DVPAIR",
+         gx=True, file_has=[DT_IMPORT], tyvars=["TZ", "DV"], types={"TZ": "TZ", "DV": "DV", "DVPAIR": "(DV * DV)"},
+         tuples={"DVPAIR": ["DV", "DV"]},
+         params=CONV_PARAMS + [("start_ts", "Z"), ("end_ts", "Z"), ("is_all_day", "B"), ("calendar_tz", "O:TZ")],
+         text_exprs={"timezone.utc": ("tz_utc", "TZ")},
+         calls={"datetime.fromtimestamp": dict(coq="dv_fromtimestamp", args=["Z"], kw=[("tz", "TZ")], ret="DV"),
+                "_timestamp_to_datetime": dict(coq="g_gcsa_ts_to_dt", pre=["tz_utc", "dv_fromtimestamp"], args=["Z"],
+                                               ret="DV")},
+         methods={("DV", "date"): dict(coq="dv_date", args=[], ret="DV")}),
+    dict(name="g_gcsa_prepare_event_for_add", file=GCSA, func="_prepare_event_for_add", kind="expr", ret="PW", gx=True,
+         file_has=[DT_IMPORT], tyvars=PREP_TYVARS, types=dict({k: k for k in PREP_TYVARS}, VAL="(option EVENT * option ERRS)",
+                                                             DVPAIR="(DV * DV)"),
+         tuples={"VAL": ["O:EVENT", "O:ERRS"], "DVPAIR": ["DV", "DV"]}, truthy=["ERRS"],
+         locals={"start": "Z", "end": "Z"}, assert_fail="pw_assertion_error",
+         params=PREP_PARAMS + [("interval", "IVLX"), ("calendar_id", "CID"), ("calendar_summary", "CSUM"),
+                               ("calendar_tz", "O:TZ")],
+         patterns=[("_1[0]", "(errs_first {0})", ["ERRS"], "PW"),
+                   ("WriteResult(success=False, event=_1, error=ValueError('Event must have finite start and end'))",
+                    "(wr_unbounded {0})", ["EVENT"], "PW"),
+                   ("replace(_1, id='', calendar_id=_2, calendar_summary=_3)", "(ev_for_calendar {0} {1} {2})",
+                    ["EVENT", "CID", "CSUM"], "EVENT")],
+         calls={"_validate_event": dict(coq="validate_event", args=["IVLX"], fixed={"require_id": "False"}, ret="VAL"),
+                "_infer_is_all_day": dict(coq="g_gcsa_infer_is_all_day", pre=[n for n, _ in INFER_PARAMS],
+                                          args=["Z", "Z", "O:TZ"], ret="B"),
+                "_convert_timestamps_to_datetime": dict(coq="g_gcsa_convert_timestamps", pre=[n for n, _ in CONV_PARAMS],
+                                                        args=["Z", "Z", "B", "O:TZ"], ret="DVPAIR"),
+                "_PreparedEvent": dict(coq="mk_prepared", args=[],
+                                       kw=[("event", "EVENT"), ("start", "Z"), ("end", "Z"), ("is_all_day", "B"),
+                                           ("start_dt", "DV"), ("end_dt", "DV")], ret="PW")},
+         attrs={("EVENT", "start"): ("ev_start", "OZ"), ("EVENT", "end"): ("ev_end", "OZ"),
+                ("EVENT", "is_all_day"): ("ev_is_all_day", "O:B")}),
+    dict(name="g_gcsa_build_gcsa_event", file=GCSA, func="_build_gcsa_event", kind="expr", ret="GEV", gx=True,
+         file_has=["_UTC_TIMEZONE = 'UTC'"], tyvars=[t for t in BUILD_TYVARS if t not in ("CID", "CSUM")], types={k: k for k in BUILD_TYVARS},
+         params=BUILD_PARAMS + [("mk_gcsa_event", "SUM -> DV -> DV -> option TZNAME -> ODESC -> GREMS -> GEV"),
+                                ("convert_reminders_to_gcsa", "REMS -> GREMS"), ("tzname_utc", "TZNAME"),
+                                ("prepared", "PW")],
+         text_exprs={"_UTC_TIMEZONE": ("tzname_utc", "TZNAME")},
+         calls={"_convert_reminders_to_gcsa": ("convert_reminders_to_gcsa", ["REMS"], "GREMS"),
+                "GcsaEvent": dict(coq="mk_gcsa_event", args=[],
+                                  kw=[("summary", "SUM"), ("start", "DV"), ("end", "DV"), ("timezone", "O:TZNAME"),
+                                      ("description", "ODESC"), ("reminders", "GREMS")], ret="GEV")},
+         attrs=PW_ATTRS),
+    dict(name="g_gcsa_build_result_event", file=GCSA, func="_build_result_event", kind="expr", ret="AEV", gx=True,
+         tyvars=[t for t in BUILD_TYVARS + ["ID", "RID", "AEV"] if t not in ("TZNAME", "GREMS", "GEV")],
+         types={k: k for k in BUILD_TYVARS + ["ID", "RID", "AEV"]},
+         params=BUILD_PARAMS + [("ev_calendar_id", "EVENT -> CID"), ("ev_calendar_summary", "EVENT -> CSUM"),
+                                ("pw_start", "PW -> Z"), ("pw_end", "PW -> Z"),
+                                ("mk_result_event",
+                                 "ID -> CID -> CSUM -> SUM -> ODESC -> option RID -> bool -> REMS -> Z -> Z -> AEV"),
+                                ("prepared", "PW"), ("event_id", "ID")],
+         calls={"Event": dict(coq="mk_result_event", args=[],
+                              kw=[("id", "ID"), ("calendar_id", "CID"), ("calendar_summary", "CSUM"), ("summary", "SUM"),
+                                  ("description", "ODESC"), ("recurring_event_id", "O:RID"), ("is_all_day", "B"),
+                                  ("reminders", "REMS"), ("start", "Z"), ("end", "Z")], ret="AEV")},
+         attrs={**PW_ATTRS, ("EVENT", "calendar_id"): ("ev_calendar_id", "CID"),
+                ("EVENT", "calendar_summary"): ("ev_calendar_summary", "CSUM"),
+                ("PW", "start"): ("pw_start", "Z"), ("PW", "end"): ("pw_end", "Z")}),
 ]
